@@ -20,6 +20,9 @@ enum { MAXV = 48, MAXR = 128, GUARD = 32, MAXLIT = 40, MAXLIVE = 8192 };
 
 static String* vars[MAXV];
 static int nv = 0;
+// the foreign buffer a variable was pointed at when it last became a non-owning view (lit, fromBool, attach): two
+// fromBool results point at the SAME literal of the library, which the model keeps as two foreign buffers
+static int view_hint[MAXV];
 
 struct Region { unsigned char* block; unsigned char* data; size_t len; unsigned char* pristine; };
 static Region regs[MAXR];
@@ -48,6 +51,7 @@ static bool guards_ok()
 {
   for(int r = 0; r < nr; ++r) {
     const volatile unsigned char* b = regs[r].block;
+    if(!b) continue;                                   // a literal of the library itself: no guard areas
     for(size_t i = 0; i < GUARD; ++i) if(b[i] != 0xA5) return false;
     const volatile unsigned char* e = regs[r].data + regs[r].len;
     for(size_t i = 0; i < GUARD; ++i) if(e[i] != 0x5A) return false;
@@ -78,13 +82,28 @@ static int new_region(const unsigned char* d, size_t n)
   return nr++;
 }
 
+// foreign memory the harness did not allocate: the string literal a String returned by the library points to
+static int adopt_region(const unsigned char* d, size_t n)
+{
+  Region& R = regs[nr];
+  R.block = 0;
+  R.data = (unsigned char*)d;
+  R.len = n;
+  R.pristine = (unsigned char*)malloc(n ? n : 1);
+  memcpy(R.pristine, d, n);
+  return nr++;
+}
+
 static void drop_all()
 {
   for(int i = nv - 1; i >= 0; --i) { delete vars[i]; vars[i] = 0; }
   nv = 0;
   for(int r = 0; r < nr; ++r) {
-    ASAN_UNPOISON_MEMORY_REGION(regs[r].block, GUARD + regs[r].len + GUARD);
-    free(regs[r].block); free(regs[r].pristine);
+    if(regs[r].block) {
+      ASAN_UNPOISON_MEMORY_REGION(regs[r].block, GUARD + regs[r].len + GUARD);
+      free(regs[r].block);
+    }
+    free(regs[r].pristine);
   }
   nr = 0;
 }
@@ -110,6 +129,15 @@ template<int N> struct LitEq {
 };
 template<> struct LitEq<0> { static void fill(liteq_fn*) {} };
 static liteq_fn liteq_table[MAXLIT + 2];
+
+// operator+(const char(&)[N]) const
+typedef String* (*litplus_fn)(const String&, const unsigned char*);
+template<int N> struct LitPlus {
+  static String* make(const String& s, const unsigned char* p) { return new String(s + *(const char(*)[N])p); }
+  static void fill(litplus_fn* t) { t[N] = &make; LitPlus<N - 1>::fill(t); }
+};
+template<> struct LitPlus<0> { static void fill(litplus_fn*) {} };
+static litplus_fn litplus_table[MAXLIT + 2];
 
 // lexicographic order of byte strings (unsigned bytes, a proper prefix first)
 static int cmp_tok(const String* a, const String* b)
@@ -153,6 +181,8 @@ static void dump()
     if(s.data == &String::emptyData) { printf(" { e k=%llu z=%s }", (unsigned long long)s.capacity(), z); continue; }
     if(s.data == &s._data) {
       int found = -1;
+      int hnt = view_hint[i];
+      if(hnt >= 0 && hnt < nr && (const unsigned char*)s.data->str >= regs[hnt].data && (const unsigned char*)s.data->str + s.data->len <= regs[hnt].data + regs[hnt].len) found = hnt;
       for(int r = 0; r < nr && found < 0; ++r)
         if((const unsigned char*)s.data->str >= regs[r].data && (const unsigned char*)s.data->str + s.data->len <= regs[r].data + regs[r].len) found = r;
       if(found >= 0) printf(" { v%d:%llu k=%llu z=%s }", found, (unsigned long long)((const unsigned char*)s.data->str - regs[found].data), (unsigned long long)s.capacity(), z);
@@ -197,16 +227,22 @@ static void op(long c, long, vh::Tok& t)
   #define N(i) ((usize)strtoull(t.v[i], 0, 10))
   #define V(i) (*vars[var(t.v[i])])
   // argument sanity (the generators only produce valid indices; anything else is a harness error)
-  bool ctor = IS("new") || IS("lit") || IS("buf") || IS("fill") || IS("cap") || IS("copy") || IS("drop") || IS("reg") || IS("fromprintf");
+  bool ctor = IS("new") || IS("lit") || IS("buf") || IS("fill") || IS("cap") || IS("copy") || IS("drop") || IS("reg") || IS("fromprintf")
+           || IS("frombool") || IS("fromcstr") || IS("fromcstrn") || IS("char");
+  bool pushes = IS("plus") || IS("pluslit") || IS("substr") || IS("tokc") || IS("toks");
   if(IS("stat") && (t.n < 5 || var(t.v[2]) < 0 || var(t.v[3]) < 0)) { printf("! harness: bad variable\n"); tracking = false; return; }
   if(!ctor && !IS("stat") && (t.n < 2 || var(t.v[1]) < 0)) { printf("! harness: bad variable\n"); tracking = false; return; }
-  if(ctor && !IS("drop") && !IS("reg") && nv >= MAXV) { printf("! harness: too many variables\n"); tracking = false; return; }
+  if(((ctor && !IS("drop") && !IS("reg") && !IS("char")) || pushes) && nv >= MAXV) { printf("! harness: too many variables\n"); tracking = false; return; }
+  if((IS("lit") || IS("reg") || IS("pluslit") || IS("frombool")) && nr >= MAXR) { printf("! harness: too many regions\n"); tracking = false; return; }
+  if(IS("plusasg") && (t.n < 4 || var(t.v[2]) < 0 || var(t.v[3]) < 0)) { printf("! harness: bad variable\n"); tracking = false; return; }
+  if((IS("pluseq") || IS("plus")) && (t.n < 3 || var(t.v[2]) < 0)) { printf("! harness: bad variable\n"); tracking = false; return; }
 
   if(IS("new")) { vars[nv++] = new String; printf("-"); }
   else if(IS("lit")) {
     CArg a(A(1));
     if(a.n > MAXLIT) { printf("! harness: literal too long\n"); tracking = false; return; }
     int r = new_region(a.p, a.n + 1);
+    view_hint[nv] = r;
     vars[nv++] = lit_table[a.n + 1](regs[r].data);
     printf("-");
   }
@@ -216,7 +252,7 @@ static void op(long c, long, vh::Tok& t)
   else if(IS("copy")) { String* s = new String(V(1)); vars[nv++] = s; printf("-"); }
   else if(IS("drop")) { delete vars[--nv]; vars[nv] = 0; printf("-"); }
   else if(IS("reg")) { BArg a(A(1)); new_region(a.p, a.n); printf("-"); }
-  else if(IS("attach")) { int r = atoi(A(2)); V(1).attach((const char*)regs[r].data + N(3), N(4)); printf("-"); }
+  else if(IS("attach")) { int r = atoi(A(2)); V(1).attach((const char*)regs[r].data + N(3), N(4)); view_hint[var(A(1))] = r; printf("-"); }
   else if(IS("asg")) { V(1) = V(2); printf("-"); }
   else if(IS("clear")) { V(1).clear(); printf("-"); }
   else if(IS("detach")) { V(1).detach(); printf("-"); }
@@ -351,8 +387,46 @@ static void op(long c, long, vh::Tok& t)
       else if(!strcmp(q, "slen")) printf("%llu", (unsigned long long)String::length(px));
       else if(!strcmp(q, "sfindc")) { const char* p = String::find(px, (char)n); printf("%lld", off(cx, px, p)); }
       else if(!strcmp(q, "sfindlc")) { const char* p = String::findLast(px, (char)n); printf("%lld", off(cx, px, p)); }
+      else if(!strcmp(q, "sfinds")) { const char* p = String::find(px, py); printf("%lld", off(cx, px, p)); }
+      else if(!strcmp(q, "sfindo")) { const char* p = String::findOneOf(px, py); printf("%lld", off(cx, px, p)); }
       else printf("?unknown-query");
     }
+  }
+  else if(IS("pluseq")) { V(1) += V(2); printf("-"); }
+  else if(IS("pluseqc")) { V(1) += (char)atoi(A(2)); printf("-"); }
+  else if(IS("plus")) { vars[nv++] = new String(V(1) + V(2)); printf("-"); }
+  else if(IS("pluslit")) {
+    CArg a(A(2));
+    if(a.n > MAXLIT) { printf("! harness: literal too long\n"); tracking = false; return; }
+    int r = new_region(a.p, a.n + 1);
+    vars[nv++] = litplus_table[a.n + 1](V(1), regs[r].data);
+    printf("-");
+  }
+  else if(IS("plusasg")) { V(1) = V(2) + V(3); printf("-"); }
+  else if(IS("frombool")) {
+    String* s = new String(String::fromBool(atoi(A(1)) != 0));
+    vars[nv++] = s;
+    // the result describes a string literal of the library: from now on that literal is watched like the other foreign memory
+    if(s->data == &s->_data) view_hint[nv - 1] = adopt_region((const unsigned char*)s->data->str, s->data->len + 1);
+    printf("-");
+  }
+  else if(IS("fromcstr")) { CArg a(A(1)); vars[nv++] = new String(String::fromCString(a.c())); printf("-"); }
+  else if(IS("fromcstrn")) { BArg a(A(1)); vars[nv++] = new String(String::fromCString(a.c(), N(2))); printf("-"); }
+  else if(IS("tobool")) { const String& s = V(1); printf("%d", s.toBool() ? 1 : 0); }
+  else if(IS("char")) {
+    const char* q = A(1); char ch = (char)atoi(A(2));
+    if(!strcmp(q, "lower")) printf("%d", (int)(unsigned char)String::toLowerCase(ch));
+    else if(!strcmp(q, "upper")) printf("%d", (int)(unsigned char)String::toUpperCase(ch));
+    else if(!strcmp(q, "isspace")) printf("%d", String::isSpace(ch) ? 1 : 0);
+    else if(!strcmp(q, "isalnum")) printf("%d", String::isAlphanumeric(ch) ? 1 : 0);
+    else if(!strcmp(q, "isalpha")) printf("%d", String::isAlpha(ch) ? 1 : 0);
+    else if(!strcmp(q, "isdigit")) printf("%d", String::isDigit(ch) ? 1 : 0);
+    else if(!strcmp(q, "islower")) printf("%d", String::isLowerCase(ch) ? 1 : 0);
+    else if(!strcmp(q, "isprint")) printf("%d", String::isPrint(ch) ? 1 : 0);
+    else if(!strcmp(q, "ispunct")) printf("%d", String::isPunct(ch) ? 1 : 0);
+    else if(!strcmp(q, "isupper")) printf("%d", String::isUpperCase(ch) ? 1 : 0);
+    else if(!strcmp(q, "isxdigit")) printf("%d", String::isHexDigit(ch) ? 1 : 0);
+    else printf("?unknown-query");
   }
   else if(IS("len")) {
     const String& s = V(1);
@@ -367,6 +441,7 @@ int main(int argc, char** argv)
 {
   Lit<MAXLIT + 1>::fill(lit_table);
   LitEq<MAXLIT + 1>::fill(liteq_table);
+  LitPlus<MAXLIT + 1>::fill(litplus_table);
   __sanitizer_install_malloc_and_free_hooks(on_malloc, on_free);
   return vh::run(argc, argv, begin, op, end);
 }
